@@ -298,3 +298,73 @@ def fn_es_cross(fn):
             raise Untranslatable(f"ES._cross: `{u[i]}`")
         i += 1
     raise Untranslatable("ES._cross: a path does not return")
+
+
+# ----------------------------------------------------------------------------- DifferentialEvolutionOptimizer.iterate / _constraint_loop
+
+def fn_de_constraint_loop(fn):
+    want = ["while True:\n    if self.conv.not_in_constraint(position):\n        return position\n"
+            "    position = self.p_current.move_climb(position, epsilon_mod=0.3)"]
+    if fn.decorator_list or [a.arg for a in fn.args.args] != ["self", "position"] or [U(x) for x in fn.body] != want:
+        raise Untranslatable("DE._constraint_loop: " + " | ".join(U(x) for x in fn.body))
+    return ("/-- one round of `DifferentialEvolutionOptimizer._constraint_loop` (`while True`); `again` is the next round; the literal\n"
+            "    `epsilon_mod=0.3` is `epsMod` (checked against the tape's move_climb entry) -/\n"
+            "def DE_constraint_round (g : Geo) (epsMod : Rat) (fuel : Nat) (again : Pos → Tape → Except Err (Pos × Tape))\n"
+            "    (position : Pos) (tape : Tape) : Except Err (Pos × Tape) := do\n"
+            "  let (ok, tape) ← askFeas position tape\n"
+            "  if ok then pure (position, tape)\n"
+            "  else do\n"
+            "    let (position, tape) ← moveClimb g (some position) (some epsMod) fuel tape\n"
+            "    again position tape")
+
+
+def fn_de_iterate(fn):
+    if _decs(fn) != ["track_new_pos"]:
+        raise Untranslatable(f"DE.iterate: decorators {_decs(fn)}")
+    u = [U(x) for x in fn.body]
+    out = ["/-- `DifferentialEvolutionOptimizer.iterate` below `track_new_pos` -/",
+           "def DE_iterate (cfg : DECfg) (s : PopSt) : Except Err (Pos × PopSt) := do"]
+    closers = []
+    ind = 2
+    have = set()
+    ver = -1
+    kind = None         # "float" (recombined vector) | "pos"
+    cur = None          # Lean term of python `pos_new`
+    for i, st in enumerate(u):
+        pad = " " * ind
+        if st == "self.p_current = self.individuals[self.nth_trial % len(self.individuals)]":
+            out.append(f"{pad}let (idx, m) ← s.pick")
+            have.add("pick")
+        elif st == "target_vector = self.p_current.pos_new" and "pick" in have:
+            out += [f"{pad}match m.tr.posNew with", f"{pad}| none => .error (.other \"TypeError\")", f"{pad}| some target_vector =>"]
+            ind += 2
+            have.add("target")
+        elif st == "mutant_vector = self.mutation()":
+            out += [f"{pad}match s.tape with", f"{pad}| .mutant mutant_vector :: tape => do"]
+            closers = [f"{pad}| [] => .error .needMore", f"{pad}| _ => .error (protocol \"mutation\")"]
+            ind += 2
+            have.add("mutant")
+        elif st == "crossover_rates = [1 - self.crossover_rate, self.crossover_rate]":
+            have.add("rates")
+        elif st == "pos_new = self.discrete_recombination([target_vector, mutant_vector], crossover_rates)" and {"target", "mutant", "rates"} <= have:
+            out.append(f"{pad}let (c, tape) ← takeChoice target_vector.length tape")
+            out.append(f"{pad}if mutant_vector.length ≠ target_vector.length ∨ c.any (fun x => decide (x ≥ 2)) then .error (protocol \"recombination\")")
+            out.append(f"{pad}else do")
+            ind += 2
+            kind, cur = "float", "(deChoose c target_vector mutant_vector)"
+        elif st == "pos_new = self.conv2pos(pos_new)" and cur:
+            ver += 1
+            out.append(f"{pad}let (pos_new{ver}, tape) ← conv2posT cfg.member.geo {cur if kind == 'float' else f'({cur}.map F.ofInt)'} tape")
+            kind, cur = "pos", f"pos_new{ver}"
+        elif st == "pos_new = self._constraint_loop(pos_new)" and kind == "pos":
+            ver += 1
+            out.append(f"{pad}let (pos_new{ver}, tape) ← constraintLoop cfg.member.geo cfg.epsMod (tape.length + 1) {cur} tape")
+            cur = f"pos_new{ver}"
+        elif st == "self.p_current.pos_new = self.conv2pos(pos_new)" and kind == "pos" and u[i + 1:] == ["return self.p_current.pos_new"]:
+            ver += 1
+            out.append(f"{pad}let (pos_new{ver}, tape) ← conv2posT cfg.member.geo ({cur}.map F.ofInt) tape")
+            out.append(f"{pad}emitVia s idx pos_new{ver} tape")
+            return "\n".join(out + closers)
+        else:
+            raise Untranslatable(f"DE.iterate: `{st}`")
+    raise Untranslatable("DE.iterate: does not end in `self.p_current.pos_new = self.conv2pos(pos_new); return self.p_current.pos_new`")
